@@ -236,9 +236,12 @@ class Run:
 
 
 def run_mc(run: Run, module: str, cfgs: list[str], timeout: int = 3000) -> None:
-    """Exhaustive TLC runs of design-model instances; a failure is a machinery/design error."""
-    for cfg in cfgs:
-        r = tlc.run_tlc(module, cfg=cfg, workers=16, timeout=timeout)
+    """Exhaustive TLC runs of design-model instances (up to four at a time); a failure is a machinery/design error."""
+    import concurrent.futures as cf
+    par = min(4, max(1, len(cfgs)))
+    with cf.ThreadPoolExecutor(max_workers=par) as ex:
+        results = list(ex.map(lambda cfg: tlc.run_tlc(module, cfg=cfg, workers=max(4, 16 // par), timeout=timeout, heap="6g"), cfgs))
+    for cfg, r in zip(cfgs, results):
         run.add_mc(cfg, r)
         if not r.get("ok"):
             raise MachineryError(f"design model instance {cfg} does not satisfy its invariants "
